@@ -14,6 +14,182 @@ from .xplore import HarnessError
 
 
 _RealThread = real_threading.Thread      # the scheduler's own threads must stay real
+_RealLock, _RealRLock = real_threading.Lock, real_threading.RLock
+_RealEvent, _RealCondition = real_threading.Event, real_threading.Condition
+_RealSemaphore, _RealBoundedSemaphore = real_threading.Semaphore, real_threading.BoundedSemaphore
+
+ACTIVE_SCHED = [None]        # the scheduler of the run in progress (set by vserver.run_server)
+
+
+def _my_sched():
+    """the active scheduler if the calling thread is the scheduled thread holding the baton"""
+    s = ACTIVE_SCHED[0]
+    if s is None or s.abort or s.current is None:
+        return None
+    return s if s.current.thread is real_threading.current_thread() else None
+
+
+class OwnedLock:
+    """What ``threading.Lock()`` / ``RLock()`` gives the CODE UNDER TEST (env.own_threading): a real
+    lock that, in a thread run by the cooperative scheduler, never sleeps in the kernel - waiting
+    for it is a blocking point the scheduler knows about.  (A thread that slept on a real lock
+    held by a descheduled thread would hang the exploration.)  Outside a scheduled run it is
+    the real lock."""
+
+    def __init__(self, reentrant=False):
+        self.real = _RealRLock() if reentrant else _RealLock()
+        self.count = 0
+
+    def acquire(self, blocking=True, timeout=-1):
+        s = _my_sched()
+        if s is None:
+            got = self.real.acquire(blocking, timeout)
+        else:
+            while True:
+                got = self.real.acquire(False)
+                if got or not blocking:
+                    break
+                if timeout is not None and timeout >= 0 and s.timeout_fires("Lock.acquire"):
+                    break
+                s.block_until(lambda: self.count == 0, "Lock.acquire")
+        if got:
+            self.count += 1
+        return got
+
+    def release(self):
+        self.real.release()
+        self.count -= 1
+        # synchronisation operations are scheduling points: another thread may take the lock
+        # (or simply run) right after it was given up
+        s = _my_sched()
+        if s is not None and self.count == 0 and not s.free_running:
+            s.yield_point("Lock.release")
+
+    def locked(self):
+        return self.count > 0
+
+    def __enter__(self):
+        self.acquire()
+        return self
+
+    def __exit__(self, *a):
+        self.release()
+        return False
+
+    def _is_owned(self):
+        return self.real._is_owned() if hasattr(self.real, "_is_owned") else self.count > 0
+
+
+class OwnedEvent:
+    def __init__(self):
+        self.real = _RealEvent()
+        self.set, self.clear, self.is_set = self.real.set, self.real.clear, self.real.is_set
+        self.isSet = self.real.is_set
+
+    def wait(self, timeout=None):
+        s = _my_sched()
+        if s is None:
+            return self.real.wait(timeout)
+        if self.real.is_set():
+            return True
+        if timeout is not None and s.timeout_fires("Event.wait"):
+            return False
+        s.block_until(self.real.is_set, "Event.wait")
+        return True
+
+
+class OwnedSemaphore:
+    def __init__(self, value=1, bounded=False):
+        self.real = (_RealBoundedSemaphore if bounded else _RealSemaphore)(value)
+        self.release = self.real.release
+
+    def acquire(self, blocking=True, timeout=None):
+        s = _my_sched()
+        if s is None:
+            return self.real.acquire(blocking, timeout)
+        while True:
+            if self.real.acquire(False):
+                return True
+            if not blocking:
+                return False
+            if timeout is not None and s.timeout_fires("Semaphore.acquire"):
+                return False
+            s.block_until(lambda: self.real._value > 0, "Semaphore.acquire")
+
+    def __enter__(self):
+        self.acquire()
+        return self
+
+    def __exit__(self, *a):
+        self.release()
+        return False
+
+
+class OwnedCondition:
+    def __init__(self, lock=None):
+        self.lock = lock if lock is not None else OwnedLock(reentrant=True)
+        self.acquire, self.release = self.lock.acquire, self.lock.release
+        self.real = _RealCondition(getattr(self.lock, "real", self.lock))
+        self.ticket = 0
+        self.woken = 0
+
+    def __enter__(self):
+        self.lock.acquire()
+        return self
+
+    def __exit__(self, *a):
+        self.lock.release()
+        return False
+
+    def wait(self, timeout=None):
+        s = _my_sched()
+        if s is None:
+            return self.real.wait(timeout)
+        depth = 0
+        while getattr(self.lock, "count", 1) > 0 and depth < 1000:
+            try:
+                self.lock.release()
+            except RuntimeError:
+                break
+            depth += 1
+            if not isinstance(self.lock, OwnedLock):
+                break
+        self.ticket += 1
+        mine = self.ticket
+        fired = False
+        try:
+            if self.woken < mine and timeout is not None and s.timeout_fires("Condition.wait"):
+                fired = True
+            else:
+                s.block_until(lambda: self.woken >= mine, "Condition.wait")
+        finally:
+            for _ in range(depth):
+                self.lock.acquire()
+        return not fired
+
+    def wait_for(self, predicate, timeout=None):
+        r = predicate()
+        while not r:
+            if not self.wait(timeout):
+                return predicate()
+            r = predicate()
+        return r
+
+    def notify(self, n=1):
+        self.woken = min(self.ticket, self.woken + n)
+        try:
+            self.real.notify(n)
+        except RuntimeError:
+            pass
+
+    def notify_all(self):
+        self.woken = self.ticket
+        try:
+            self.real.notify_all()
+        except RuntimeError:
+            pass
+
+    notifyAll = notify_all
 
 
 class SchedAbort(BaseException):
@@ -265,6 +441,90 @@ class FakeLock:
         return False
 
 
+class FakeSemaphore:
+    def __init__(self, sched, value=1, bounded=False):
+        if value < 0:
+            raise ValueError("semaphore initial value must be >= 0")
+        self.s = sched
+        self.value = value
+        self.initial = value
+        self.bounded = bounded
+
+    def acquire(self, blocking=True, timeout=None):
+        s = self.s
+        if self.value == 0:
+            if not blocking:
+                return False
+            if timeout is not None and s.timeout_fires("Semaphore.acquire"):
+                return False
+            s.block_until(lambda: self.value > 0, "Semaphore.acquire")
+        self.value -= 1
+        return True
+
+    def release(self, n=1):
+        if self.bounded and self.value + n > self.initial:
+            raise ValueError("Semaphore released too many times")
+        self.value += n
+
+    def __enter__(self):
+        self.acquire()
+        return self
+
+    def __exit__(self, *a):
+        self.release()
+        return False
+
+
+class FakeCondition:
+    def __init__(self, sched, lock=None):
+        self.s = sched
+        self.lock = lock if lock is not None else FakeLock(sched, reentrant=True)
+        self.acquire = self.lock.acquire
+        self.release = self.lock.release
+        self.ticket = 0
+        self.woken = 0
+
+    def __enter__(self):
+        return self.lock.__enter__()
+
+    def __exit__(self, *a):
+        return self.lock.__exit__(*a)
+
+    def wait(self, timeout=None):
+        lock, s = self.lock, self.s
+        saved = (lock.owner, lock.depth)
+        lock.owner, lock.depth = None, 0
+        self.ticket += 1
+        mine = self.ticket
+        fired = False
+        try:
+            if timeout is not None and self.woken < mine and s.timeout_fires("Condition.wait"):
+                fired = True
+            else:
+                s.block_until(lambda: self.woken >= mine, "Condition.wait")
+        finally:
+            if lock.depth:
+                s.block_until(lambda: lock.depth == 0, "Condition.reacquire")
+            lock.owner, lock.depth = s.current, saved[1]
+        return not fired
+
+    def wait_for(self, predicate, timeout=None):
+        r = predicate()
+        while not r:
+            if not self.wait(timeout):
+                return predicate()
+            r = predicate()
+        return r
+
+    def notify(self, n=1):
+        self.woken = min(self.ticket, self.woken + n)
+
+    def notify_all(self):
+        self.woken = self.ticket
+
+    notifyAll = notify_all
+
+
 class SchedBufferedReader(_pyio.BufferedReader):
     """io.BufferedReader holds an internal lock over the blocking read and over close();
     the C implementation's lock is invisible to the scheduler (a second thread closing the
@@ -325,7 +585,16 @@ class FakeThreadingModule:
         self.Event = lambda: FakeEvent(s)
         self.Lock = lambda: FakeLock(s)
         self.RLock = lambda: FakeLock(s, reentrant=True)
+        self.Semaphore = lambda value=1: FakeSemaphore(s, value)
+        self.BoundedSemaphore = lambda value=1: FakeSemaphore(s, value, bounded=True)
+        self.Condition = lambda lock=None: FakeCondition(s, lock)
         self.current_thread = real_threading.current_thread
+
+    def __getattr__(self, name):
+        # what does not synchronise (local, get_ident, main_thread, excepthook ...) is the real module's
+        if name == "Barrier":
+            raise NotImplementedError("threading.Barrier is not modelled by the scheduler")
+        return getattr(real_threading, name)
 
 
 class Conn:
